@@ -308,6 +308,25 @@ pub fn worker(wi: usize, wn: usize, tier: &str) {
 pub fn run(tier: &str, replay: Option<&str>) -> i32 {
     if let Some(p) = replay {
         let v: Value = serde_json::from_str(&std::fs::read_to_string(p).expect("read")).expect("json");
+        if v["case"]["check"] == "C10S" {
+            let sig = v["signature"].as_str().unwrap_or("").to_string();
+            return match crate::realbin::run_slice("C10S", tier) {
+                Ok(r) => {
+                    if r["violations"].as_array().map(|a| a.iter().any(|x| x["sig"] == sig.as_str())).unwrap_or(false) {
+                        println!("replay: reproduced {sig}");
+                        println!("VIOLATION property=C14 replay={p}");
+                        1
+                    } else {
+                        println!("replay: no violation with signature {sig}");
+                        0
+                    }
+                }
+                Err(e) => {
+                    eprintln!("machinery error: {e}");
+                    2
+                }
+            };
+        }
         let c = &v["case"];
         let mut st = Stats::default();
         if c.get("sequence").is_some() {
@@ -363,8 +382,21 @@ pub fn run(tier: &str, replay: Option<&str>) -> i32 {
     ev.set("concurrent_programs", tot["conc_programs"]);
     ev.set("concurrent_executions_not_completed", tot["conc_incomplete"]);
     ev.set("concurrent_executions", tot["conc_executions"]);
+    ev.assume("server-level slice: through the real binary a tenant at max_vectors is refused (RESOURCE_EXHAUSTED), may overwrite, is admitted again after one delete and refused again after that insert — on first boot and after each of two restarts (main()'s own start-up recount)");
     ev.assume("Restart = TieredEngine::recover + a transcription of main()'s start-up recount (cold ids_for_metadata_filter(Exact __tenant_idx__) + hot-tier scan); main() itself is only reachable through the real binary");
     ev.assume("under the scheduler unary handlers run to completion with now_or_never (they contain no suspending await)");
+    // server-level slice through the real binary (auth interceptor, tenant map, start-up recount)
+    match crate::realbin::run_slice("C10S", tier) {
+        Ok(v) => {
+            rep.report_bag(&crate::realbin::violations_with_prefix(&v, "C14|"));
+            ev.set("server_slice_launches_of_the_real_binary", v["launches"].clone());
+            ev.set("server_slice_checks", v["checks"].clone());
+        }
+        Err(e) => {
+            eprintln!("C14: machinery error in the server-level slice: {e}");
+            return 2;
+        }
+    }
     ev.violations = rep.violations as i64;
     ev.write();
     println!("C14 {tier}: sequences={} steps={} at_limit={} refused={} states={} conc_programs={} conc_execs={} violations={}", tot["sequences"], tot["steps"], tot["at_limit"], tot["refused"], states.len(), tot["conc_programs"], tot["conc_executions"], rep.violations);
